@@ -58,6 +58,9 @@ func CompileRego(regoUnit *generator.RegoUnit, eventChan *chan e.Event) (compile
 	module := rego.Module(regoUnit.Name+".rego", regoUnit.Code)
 	unsafeBuiltins := rego.UnsafeBuiltins(unsafeBuiltinsMap)
 	preparedEvalQuery, err := rego.New(query, module, unsafeBuiltins, keepPrintCalls()).PrepareForEval(context.Background())
+	if err == nil {
+		err = deniedCallsInPrintModifiers(regoUnit.Name+".rego", regoUnit.Code)
+	}
 	dispatchEvent(e.NewEvent(e.RegoCompilationDone), eventChan)
 	return &preparedEvalQuery, err
 }
